@@ -187,6 +187,12 @@ impl MessageBufReader {
         }
     }
 
+    /// true only when unread bytes remain and the next one is the 0 end marker
+    /// (unlike `is_empty`, a merely drained buffer is not an end marker)
+    pub fn is_end_marker(&self) -> bool {
+        self.start < self.end && self.buf[self.start] == 0
+    }
+
     pub fn append_next_buf(&mut self, next_buf: &[u8]) {
         move_data_to_start(&mut self.buf, self.start);
         self.end -= self.start;
